@@ -1409,5 +1409,315 @@ End JsonRT.
 Print Assumptions json_dec_tree_text.
 Print Assumptions json_enc_tree_value.
 Print Assumptions C07_json.
-Check C07_json.
-Check json_enc_tree_value.
+
+(* ====================================================================== *)
+(* Part 6: the explicit_radix patch of a number text is a number text      *)
+(*   (so that only ParseFloat's value on it remains a hypothesis)          *)
+(* ====================================================================== *)
+Lemma radix_scan_skip p : forall q i, (forall c, In c p -> c <> 101 /\ c <> 46) ->
+  radix_scan (p ++ q) i = radix_scan q (i + length p).
+Proof.
+  induction p as [|c p IH]; intros q i H.
+  - cbn [app length]. rewrite Nat.add_0_r. reflexivity.
+  - cbn [app radix_scan]. destruct (H c (or_introl eq_refl)) as [H1 H2].
+    replace (c =? 101) with false by lia. replace (c =? 46) with false by lia.
+    rewrite IH by (intros c' Hc'; apply H; right; exact Hc').
+    cbn [length]. f_equal. lia.
+Qed.
+
+Lemma digits_no_radix ds : all_digits ds = true -> forall c, In c ds -> c <> 101 /\ c <> 46.
+Proof.
+  intros H c Hc. unfold all_digits in H. rewrite forallb_forall in H. specialize (H c Hc).
+  unfold is_dig in H. lia.
+Qed.
+
+Lemma lex_int_relex b1 i b2 x : lex_int b1 = POk i b2 -> nodig_head x = true ->
+  lex_int (i ++ x) = POk i x.
+Proof.
+  unfold lex_int. destruct b1 as [|c r]; [discriminate|].
+  destruct (c =? 48) eqn:E0.
+  - intros H _. injection H as <- <-. reflexivity.
+  - destruct ((49 <=? c) && (c <=? 57)) eqn:E1; [|discriminate].
+    destruct (span_digits r) as [ds r'] eqn:ES. intros H Hx. injection H as <- <-.
+    destruct (span_digits_inv _ _ _ ES) as [_ Hd].
+    cbn [app]. rewrite E0, E1.
+    rewrite (span_digits_app ds ds [] x (span_digits_all ds Hd) Hx). reflexivity.
+Qed.
+
+(* unsigned part *)
+Lemma radix_patch_unsigned b1 i b2 fr b3 ex k :
+  lex_int b1 = POk i b2 -> lex_frac b2 = POk fr b3 -> lex_exp b3 = POk ex [] ->
+  ~ In 69 b1 -> snd (radix_scan b1 k) = true ->
+  exists idx, radix_scan b1 k = ((k + idx)%nat, true) /\
+    firstn idx b1 ++ [46; 48] ++ skipn idx b1 = i ++ [46; 48] ++ ex /\
+    lex_int (i ++ [46; 48] ++ ex) = POk i ([46; 48] ++ ex) /\
+    lex_frac ([46; 48] ++ ex) = POk [46; 48] ex /\ lex_exp ex = POk ex [].
+Proof.
+  intros Hi Hf He H69 Hneed.
+  destruct (lex_int_inv _ _ _ Hi) as (-> & Hne & Hd).
+  pose proof (lex_int_relex _ _ _ ([46; 48] ++ ex) Hi eq_refl) as Hi'.
+  rewrite (radix_scan_skip i b2 k (digits_no_radix i Hd)) in Hneed |- *.
+  destruct b2 as [|c r2].
+  { (* digits only *)
+    cbn [lex_frac] in Hf. injection Hf as <- <-. cbn [lex_exp] in He. injection He as <-.
+    exists (length i). cbn [radix_scan]. split; [reflexivity|].
+    rewrite app_nil_r, firstn_all, skipn_all. split; [reflexivity|]. split; [exact Hi'|].
+    split; reflexivity. }
+  unfold lex_frac in Hf. destruct (c =? 46) eqn:E46.
+  { exfalso. cbn [radix_scan] in Hneed. rewrite E46 in Hneed.
+    replace (c =? 101) with false in Hneed by lia. cbn [snd] in Hneed. discriminate. }
+  injection Hf as <- <-.
+  destruct (lex_exp_inv _ _ _ He) as (Hex & _ & _). rewrite app_nil_r in Hex. subst ex.
+  unfold lex_exp in He. destruct ((c =? 101) || (c =? 69)) eqn:Ee; [|discriminate].
+  assert (Hc : c = 101).
+  { destruct (c =? 69) eqn:E69; [|lia]. exfalso. apply H69. apply in_or_app. right. left. lia. }
+  subst c. exists (length i). cbn [radix_scan]. change (101 =? 101) with true. cbn iota.
+  split; [reflexivity|].
+  rewrite firstn_app, Nat.sub_diag, firstn_all. cbn [firstn]. rewrite app_nil_r.
+  rewrite skipn_app, Nat.sub_diag, skipn_all. cbn [skipn app].
+  split; [reflexivity|]. split; [exact Hi'|]. split; [reflexivity|].
+  unfold lex_exp. change ((101 =? 101) || (101 =? 69)) with true. cbn iota. exact He.
+Qed.
+
+Theorem radix_patch_number b isint : json_number b = NumOk b isint [] ->
+  Forall (fun c => In c fchars) b -> snd (radix_scan b 0) = true ->
+  json_number (radix_patch b) = NumOk (radix_patch b) false [].
+Proof.
+  intros Hn Hch Hneed.
+  assert (H69 : ~ In 69 b).
+  { intro H. rewrite Forall_forall in Hch. specialize (Hch 69 H). unfold fchars in Hch. cbn [In] in Hch.
+    repeat (destruct Hch as [Hch|Hch]; [discriminate|]). exact Hch. }
+  rewrite json_number_eq in Hn.
+  destruct (lex_int (snd (sign_split b))) as [i b2| |] eqn:E1; try discriminate.
+  destruct (lex_frac b2) as [fr b3| |] eqn:E2; try discriminate.
+  destruct (lex_exp b3) as [ex b4| |] eqn:E3; try discriminate.
+  injection Hn as Hlit _ Hb4. subst b4.
+  unfold radix_patch.
+  destruct b as [|c r]; [discriminate E1|].
+  unfold sign_split in E1, Hlit. destruct (c =? 45) eqn:E45; cbn [fst snd] in E1, Hlit.
+  - assert (c = 45) by lia. subst c.
+    cbn [radix_scan] in Hneed |- *. change (45 =? 101) with false in *. change (45 =? 46) with false in *.
+    cbn iota in Hneed |- *.
+    destruct (radix_patch_unsigned r i b2 fr b3 ex 1 E1 E2 E3) as (idx & Hs & Ht & Hi' & Hf' & He').
+    { intro H. apply H69. right. exact H. }
+    { exact Hneed. }
+    rewrite Hs. change (1 + idx)%nat with (S idx). cbn [firstn skipn app].
+    change (firstn idx r ++ 46 :: 48 :: skipn idx r) with (firstn idx r ++ [46; 48] ++ skipn idx r).
+    rewrite Ht. rewrite json_number_eq. cbn [sign_split fst snd]. change (45 =? 45) with true. cbn iota.
+    cbn [fst snd]. rewrite Hi', Hf', He'. reflexivity.
+  - destruct (radix_patch_unsigned (c :: r) i b2 fr b3 ex 0 E1 E2 E3 H69 Hneed)
+      as (idx & Hs & Ht & Hi' & Hf' & He').
+    rewrite Hs. cbn [Nat.add]. rewrite Ht. rewrite json_number_eq.
+    assert (Hss : sign_split (i ++ [46; 48] ++ ex) = ([], i ++ [46; 48] ++ ex)).
+    { destruct (lex_int_inv _ _ _ E1) as (Hb & Hne & Hd). destruct i as [|d ds]; [contradiction|].
+      cbn [app] in Hb. injection Hb as <- _. cbn [app sign_split]. rewrite E45. reflexivity. }
+    rewrite Hss. cbn [fst snd]. rewrite Hi', Hf', He'. reflexivity.
+Qed.
+Print Assumptions radix_patch_number.
+
+(* ====================================================================== *)
+(* Part 7: C07 with hypotheses about strconv only                          *)
+(*   - AppendFloat writes a number of the RFC grammar using only the       *)
+(*     characters +-.0123456789e  (fchars),                                *)
+(*   - ParseFloat accepts the text with ".0" inserted.                     *)
+(* ====================================================================== *)
+Section JsonRTStrconv.
+  Variable ffmt : Z -> Z -> bytes.
+  Variable pf : bytes -> option Z.
+  Variable fimg : Z -> Z -> cnum.
+  Variable fbits_r : Z -> Z -> Z.
+
+  Hypothesis ffmt_number : forall w bits, w = 32 \/ w = 64 -> in_u w bits = true ->
+    nonfinite w bits = false ->
+    exists isint, json_number (ffmt w bits) = NumOk (ffmt w bits) isint [] /\
+                  json_num_value pf (ffmt w bits) isint = Some (fimg w bits).
+  Hypothesis ffmt_chars : forall w bits, w = 32 \/ w = 64 -> in_u w bits = true ->
+    nonfinite w bits = false -> Forall (fun c => In c fchars) (ffmt w bits).
+  Hypothesis pf_radix : forall w bits, w = 32 \/ w = 64 -> in_u w bits = true ->
+    nonfinite w bits = false -> snd (radix_scan (ffmt w bits) 0) = true ->
+    pf (radix_patch (ffmt w bits)) = Some (fbits_r w bits).
+
+  Lemma ffmt_radix_derived : forall w bits, w = 32 \/ w = 64 -> in_u w bits = true ->
+    nonfinite w bits = false -> snd (radix_scan (ffmt w bits) 0) = true ->
+    exists isint, json_number (radix_patch (ffmt w bits)) = NumOk (radix_patch (ffmt w bits)) isint [] /\
+                  json_num_value pf (radix_patch (ffmt w bits)) isint = Some (CF64 (fbits_r w bits)).
+  Proof.
+    intros w bits Hw Hu Hnf Hneed. exists false.
+    destruct (ffmt_number w bits Hw Hu Hnf) as (isint & Hn & _).
+    split.
+    - eapply radix_patch_number; [exact Hn|apply ffmt_chars; assumption|exact Hneed].
+    - unfold json_num_value. rewrite pf_radix by assumption. reflexivity.
+  Qed.
+
+  Theorem C07_json_strconv : forall cfg t, wf_tree t = true ->
+    (ignore_invalid cfg = true \/ tree_finite t = true) ->
+    exists e', json_run cfg ffmt (jenc0 None) (flatten t) 0 = JRun e' None /\
+               json_decode pf (w_bytes (je_w e')) =
+               RValue (json_img ffmt fimg (fun w bits => CF64 (fbits_r w bits)) cfg t) [].
+  Proof. apply C07_json; [exact ffmt_number|exact ffmt_radix_derived]. Qed.
+
+  Theorem json_enc_tree_value_strconv : forall cfg t, wf_tree t = true ->
+    ignore_invalid cfg = true \/ tree_finite t = true ->
+    forall e i, w_fail (je_w e) = None ->
+    exists e' txt, json_run cfg ffmt e (flatten t) i = JRun e' None /\
+      je_first e' = after_val e /\ je_inarr e' = je_inarr e /\ w_fail (je_w e') = None /\
+      w_bytes (je_w e') = w_bytes (je_w e) ++ sep e ++ txt /\
+      forall fuel rest, delim rest = true -> (length txt < fuel)%nat ->
+        json_ref pf fuel (txt ++ rest) =
+        RValue (json_img ffmt fimg (fun w bits => CF64 (fbits_r w bits)) cfg t) rest.
+  Proof. apply json_enc_tree_value; [exact ffmt_number|exact ffmt_radix_derived]. Qed.
+End JsonRTStrconv.
+Print Assumptions C07_json_strconv.
+Print Assumptions json_enc_tree_value_strconv.
+
+(* ====================================================================== *)
+(* Part 8: facts about the image                                           *)
+(* ====================================================================== *)
+Section Img.
+  Variable ffmt : Z -> Z -> bytes.
+  Variables fimg fimg_r : Z -> Z -> cnum.
+  Variable cfg : jcfg.
+  Notation img := (json_img ffmt fimg fimg_r cfg).
+  Notation simg := (scalar_img ffmt fimg fimg_r cfg).
+
+  (* extended events count as their expansion; by-reference strings as strings *)
+  Theorem json_img_expand : forall t, img (expand_tree t) = img t.
+  Proof.
+    induction t as [s r|len bt es IH|len bt ms IH|bt es|bt ms] using tree_ind'; cbn [expand_tree json_img].
+    - reflexivity.
+    - f_equal. rewrite map_map. apply map_ext_in. intros t Ht. rewrite Forall_forall in IH. apply IH. exact Ht.
+    - f_equal. rewrite map_map. apply map_ext_in. intros m Hm. rewrite Forall_forall in IH.
+      cbn [fst snd]. rewrite (IH m Hm). reflexivity.
+    - f_equal. rewrite map_map. reflexivity.
+    - f_equal. rewrite map_map. reflexivity.
+  Qed.
+
+  (* without floats and with valid UTF-8 the image is the value itself *)
+  Definition scalar_exact (s : scalar) : bool :=
+    match s with
+    | SStr b => utf8_valid b
+    | SNum KFloat32 _ | SNum KFloat64 _ => false
+    | _ => true
+    end.
+
+  Fixpoint tree_exact (t : tree) : bool :=
+    match t with
+    | TVal s _ => scalar_exact s
+    | TArr _ _ es => forallb tree_exact es
+    | TObj _ _ ms => forallb (fun m => utf8_valid (fst (fst m)) && tree_exact (snd m)) ms
+    | TXArr _ es => forallb scalar_exact es
+    | TXObj _ ms => forallb (fun m => utf8_valid (fst m) && scalar_exact (snd m)) ms
+    end.
+
+  Lemma utf8_valid_sanitize b : utf8_valid b = true -> sanitize b = b.
+  Proof. unfold utf8_valid. apply bytes_eqb_spec. Qed.
+
+  Lemma scalar_img_exact s : scalar_exact s = true -> simg s = cv (scalar_value s).
+  Proof.
+    destruct s as [|b|b|k z]; cbn [scalar_exact scalar_img scalar_value cv]; intro H; try reflexivity.
+    - rewrite (utf8_valid_sanitize b H). reflexivity.
+    - destruct k; try discriminate; reflexivity.
+  Qed.
+
+  Theorem json_img_exact : forall t, tree_exact t = true -> img t = cv (value_of t).
+  Proof.
+    induction t as [s r|len bt es IH|len bt ms IH|bt es|bt ms] using tree_ind';
+      cbn [tree_exact json_img value_of cv]; intro H.
+    - apply scalar_img_exact. exact H.
+    - f_equal. rewrite map_map. apply map_ext_in. intros t Ht.
+      rewrite Forall_forall in IH. rewrite forallb_forall in H. apply IH; [exact Ht|apply H; exact Ht].
+    - f_equal. rewrite map_map. apply map_ext_in. intros m Hm.
+      rewrite Forall_forall in IH. rewrite forallb_forall in H. specialize (H m Hm).
+      apply andb_true_iff in H. destruct H as [Hk Ht]. cbn [fst snd].
+      rewrite (utf8_valid_sanitize _ Hk), (IH m Hm Ht). reflexivity.
+    - f_equal. rewrite map_map. apply map_ext_in. intros s Hs.
+      rewrite forallb_forall in H. apply scalar_img_exact. apply H. exact Hs.
+    - f_equal. rewrite map_map. apply map_ext_in. intros m Hm.
+      rewrite forallb_forall in H. specialize (H m Hm).
+      apply andb_true_iff in H. destruct H as [Hk Hs]. cbn [fst snd].
+      rewrite (utf8_valid_sanitize _ Hk), (scalar_img_exact _ Hs). reflexivity.
+  Qed.
+End Img.
+Print Assumptions json_img_expand.
+Print Assumptions json_img_exact.
+
+(* ====================================================================== *)
+(* Part 9: a toy instance (the hypotheses are satisfiable; the definitions *)
+(*   compute what they should)                                             *)
+(* ====================================================================== *)
+Module JsonRTExamples.
+  (* bits 0 -> "0", bits 1 -> "1e+06", anything else -> "2.5" *)
+  Definition toy_ffmt (w bits : Z) : bytes :=
+    if bits =? 0 then [48] else if bits =? 1 then [49; 101; 43; 48; 54] else [50; 46; 53].
+  Definition toy_pf (l : bytes) : option Z := Some (zlen l).
+  Definition toy_fimg (w bits : Z) : cnum :=
+    if bits =? 0 then CInt 0 else if bits =? 1 then CF64 5 else CF64 3.
+  Definition toy_fimg_r (w bits : Z) : cnum := if bits =? 0 then CF64 3 else CF64 7.
+
+  Theorem C07_json_toy : forall cfg t, wf_tree t = true ->
+    (ignore_invalid cfg = true \/ tree_finite t = true) ->
+    exists e', json_run cfg toy_ffmt (jenc0 None) (flatten t) 0 = JRun e' None /\
+               json_decode toy_pf (w_bytes (je_w e')) = RValue (json_img toy_ffmt toy_fimg toy_fimg_r cfg t) [].
+  Proof.
+    apply C07_json.
+    - intros w bits _ _ _. unfold toy_ffmt, toy_fimg.
+      destruct (bits =? 0); [|destruct (bits =? 1)]; eexists; split; reflexivity.
+    - intros w bits _ _ _. unfold toy_ffmt, toy_fimg_r.
+      destruct (bits =? 0); [|destruct (bits =? 1)]; cbn; intro H; try discriminate H;
+        eexists; split; reflexivity.
+  Qed.
+
+  Definition cfg_all : jcfg := {| escape_html := true; ignore_invalid := true; explicit_radix := true |}.
+  Definition cfg_none : jcfg := {| escape_html := false; ignore_invalid := false; explicit_radix := false |}.
+
+  (* an object with a key holding '<', LF, an invalid byte and U+2028; integers at the 64-bit limits, floats of all
+     three toy shapes, a NaN, a by-reference string with a quote and a backslash, empty containers, a typed int8
+     array and a typed string object *)
+  Definition sample : tree :=
+    TObj 3 BAny
+      [([97; 60; 10; 255; 226; 128; 168], false,
+        TArr (-1) BAny [TVal (SNum KInt (-5)) false; TVal (SNum KUint64 18446744073709551615) false;
+                        TVal (SNum KFloat32 0) false; TVal (SNum KFloat64 1) false; TVal (SNum KFloat64 2) false;
+                        TVal (SNum KFloat64 9218868437227405313) false;
+                        TVal (SStr [195; 169; 34; 92]) true; TVal SNil false; TVal (SBool true) false;
+                        TArr 0 BAny []; TObj 0 BAny []]);
+       ([116], true, TXArr BInt8 [SNum KInt8 (-128); SNum KInt8 127]);
+       ([111], false, TXObj BString [([107; 38], SStr [1; 128])])].
+
+  Definition check (cfg : jcfg) (t : tree) : bool :=
+    match json_run cfg toy_ffmt (jenc0 None) (flatten t) 0 with
+    | JRun e' None =>
+        match json_decode toy_pf (w_bytes (je_w e')) with
+        | RValue v [] => cvalue_eqb v (json_img toy_ffmt toy_fimg toy_fimg_r cfg t)
+        | _ => false
+        end
+    | _ => false
+    end.
+
+  Example sample_wf : wf_tree sample = true.
+  Proof. vm_compute. reflexivity. Qed.
+  Example sample_all : check cfg_all sample = true.
+  Proof. vm_compute. reflexivity. Qed.
+  Example sample_text :
+    match json_run cfg_all toy_ffmt (jenc0 None) (flatten sample) 0 with
+    | JRun e' None => w_bytes (je_w e')
+    | _ => []
+    end =
+    (* the text: key a\u003c\n\ufffd\u2028, then [-5,18446744073709551615,0.0,1.0e+06,2.5,null,...] etc. *)
+    [123; 34;97;92;117;48;48;51;99;92;110;92;117;102;102;102;100;92;117;50;48;50;56;34; 58;
+     91; 45;53; 44; 49;56;52;52;54;55;52;52;48;55;51;55;48;57;53;53;49;54;49;53; 44; 48;46;48; 44;
+     49;46;48;101;43;48;54; 44; 50;46;53; 44; 110;117;108;108; 44; 34;195;169;92;34;92;92;34; 44;
+     110;117;108;108; 44; 116;114;117;101; 44; 91;93; 44; 123;125; 93; 44;
+     34;116;34; 58; 91; 45;49;50;56; 44; 49;50;55; 93; 44;
+     34;111;34; 58; 123; 34;107;92;117;48;48;50;54;34; 58; 34;92;117;48;48;48;49;92;117;102;102;102;100;34; 125; 125].
+  Proof. vm_compute. reflexivity. Qed.
+  Example sample_img :
+    json_img toy_ffmt toy_fimg toy_fimg_r cfg_all sample =
+    CObj [([97; 60; 10; 239; 191; 189; 226; 128; 168],
+           CArr [CNum (CInt (-5)); CNum (CInt 18446744073709551615); CNum (CF64 3); CNum (CF64 7); CNum (CF64 3);
+                 CNil; CStr [195; 169; 34; 92]; CNil; CBool true; CArr []; CObj []]);
+          ([116], CArr [CNum (CInt (-128)); CNum (CInt 127)]);
+          ([111], CObj [([107; 38], CStr [1; 239; 191; 189])])].
+  Proof. vm_compute. reflexivity. Qed.
+End JsonRTExamples.
+Print Assumptions JsonRTExamples.C07_json_toy.
